@@ -74,6 +74,7 @@ type tmpl struct {
 	crldp             []string
 	ocsp, issuing     []string
 	extra             []ext
+	stdOnly           bool // issue with crypto/x509 only
 }
 
 var ekuPairs = []struct {
@@ -98,6 +99,7 @@ var ekuPairs = []struct {
 }
 
 const ctEKU = "1.3.6.1.4.1.11129.2.4.4"
+const sctListOID = "1.3.6.1.4.1.11129.2.4.2"
 
 func oidStr(o []int) string {
 	var s []string
@@ -498,6 +500,25 @@ func (rn *runner) templates() []*tmpl {
 		v := v
 		add("validity-"+v.n, func(t *tmpl) { t.notBefore, t.notAfter = v.a, v.b })
 	}
+	// The two ends of the UTCTime window (RFC 5280 4.1.2.5: years 1950..2049 are written with two digits,
+	// everything else as GeneralizedTime), enumerated: each of the years around both pivots as notBefore AND
+	// as notAfter, at the first and the last second of the year, and the window's two ends together.  Every
+	// template is issued by crypto/x509.CreateCertificate (and by the fork's encoder) and, beyond the
+	// comparison with crypto/x509's reading, the parsed bounds are compared with the template itself.
+	at := func(y int, end bool) time.Time {
+		if end {
+			return time.Date(y, 12, 31, 23, 59, 59, 0, time.UTC)
+		}
+		return time.Date(y, 1, 1, 0, 0, 0, 0, time.UTC)
+	}
+	for _, y := range []int{1949, 1950, 1951, 1999, 2000, 2049, 2050, 2051} {
+		y := y
+		add(fmt.Sprintf("validity-year-%d-whole", y), func(t *tmpl) { t.notBefore, t.notAfter = at(y, false), at(y, true) })
+		add(fmt.Sprintf("validity-year-%d-notbefore-end", y), func(t *tmpl) { t.notBefore, t.notAfter = at(y, true), at(2060, false) })
+		add(fmt.Sprintf("validity-year-%d-notafter-start", y), func(t *tmpl) { t.notBefore, t.notAfter = at(1940, false), at(y, false) })
+	}
+	add("validity-utctime-window", func(t *tmpl) { t.notBefore, t.notAfter = at(1950, false), at(2049, true) })
+	add("validity-just-outside-window", func(t *tmpl) { t.notBefore, t.notAfter = at(1949, true), at(2050, false) })
 	add("serial-large", func(t *tmpl) { t.serial, _ = new(big.Int).SetString("00f1e2d3c4b5a69788796a5b4c3d2e1f00", 16) })
 	add("serial-high-bit", func(t *tmpl) { t.serial = new(big.Int).SetBytes([]byte{0x80, 0, 0, 0, 0, 0, 0, 1}) })
 	add("serial-one", func(t *tmpl) { t.serial = big.NewInt(1) })
@@ -514,7 +535,104 @@ func (rn *runner) templates() []*tmpl {
 			}
 		})
 	}
+	rn.sanTemplates(add)
 	return ts
+}
+
+// The subjectAltName class.  The templates above always put a DNS name next to an empty subject
+// and never a single non-DNS kind into a CRITICAL extension, although an encoder marks the
+// extension critical exactly when the subject is empty (RFC 5280 4.2.1.6) and the parser's
+// decision "was the extension handled?" (UnhandledCriticalExtensions) is a function of WHICH kinds
+// of name it found.  Enumerated here, without random choices:
+//   - every non-empty subset of the four kinds the encoders take from template fields
+//     {DNS, e-mail, IP, URI} x subject {non-empty, empty} x 1..3 names per kind, and
+//   - GeneralNames written by hand (passed as ExtraExtensions, which both encoders copy in place
+//     of their own subjectAltName) over the seven kinds {otherName, rfc822Name, dNSName,
+//     directoryName, URI, iPAddress, registeredID}: every subset of size 1, 2 and 7 (all 127 in
+//     the thorough tier) x {empty subject + critical, subject + non-critical, subject + critical,
+//     empty subject + non-critical}.
+//
+// Each is issued by crypto/x509.CreateCertificate and by the fork's encoder and compared field by
+// field with crypto/x509.ParseCertificate like every other template (names, URIs, Extensions
+// (id, critical, value), UnhandledCriticalExtensions ...).
+func (rn *runner) sanTemplates(add func(name string, f func(t *tmpl))) {
+	dns := []string{"a.sanset.example", "*.b.sanset.example", "xn--bcher-kva.sanset.example"}
+	emails := []string{"u@sanset.example", "first.last+tag@sub.sanset.example", "x@y.example"}
+	ips := []net.IP{net.ParseIP("192.0.2.1").To4(), net.ParseIP("2001:db8::1"), net.ParseIP("0.0.0.0").To4()}
+	uris := []string{"spiffe://trust.sanset.example/ns/default/sa/workload", "https://sanset.example/path?q=1", "urn:uuid:f81d4fae-7dec-11d0-a765-00a0c91e6bf6"}
+	for mask := 1; mask < 16; mask++ {
+		for _, empty := range []bool{false, true} {
+			for n := 1; n <= 3; n++ {
+				mask, empty, n := mask, empty, n
+				name := fmt.Sprintf("sanset-fields-%04b-n%d", mask, n)
+				if empty {
+					name += "-emptysubject"
+				}
+				add(name, func(t *tmpl) {
+					if empty {
+						t.cn, t.org = "", nil
+					}
+					if mask&1 != 0 {
+						t.dns = dns[:n]
+					}
+					if mask&2 != 0 {
+						t.emails = emails[:n]
+					}
+					if mask&4 != 0 {
+						t.ips = ips[:n]
+					}
+					if mask&8 != 0 {
+						t.uris = uris[:n]
+					}
+				})
+			}
+		}
+	}
+	// hand-encoded GeneralNames
+	upn := derTLV(0xa0, derOID(1, 3, 6, 1, 4, 1, 311, 20, 2, 3), derTLV(0xa0, derTLV(0x0c, []byte("user@sanset.example"))))
+	gn := [][][]byte{
+		{upn, derTLV(0xa0, derOID(1, 3, 6, 1, 5, 5, 7, 8, 7), derTLV(0xa0, derTLV(0x16, []byte("_xmpp.sanset.example"))))}, // otherName
+		{derTLV(0x81, []byte("u@sanset.example")), derTLV(0x81, []byte("v@sanset.example"))},                               // rfc822Name
+		{derTLV(0x82, []byte("a.sanset.example")), derTLV(0x82, []byte("*.b.sanset.example"))},                             // dNSName
+		{derTLV(0xa4, dirName("san directory name")), derTLV(0xa4, stringsName("dir"))},                                    // directoryName
+		{derTLV(0x86, []byte("spiffe://trust.sanset.example/workload")), derTLV(0x86, []byte("https://sanset.example/"))},  // URI
+		{derTLV(0x87, []byte{192, 0, 2, 1}), derTLV(0x87, net.ParseIP("2001:db8::2"))},                                     // iPAddress
+		{derTLV(0x88, derOID(1, 2, 3, 4)[2:]), derTLV(0x88, derOID(2, 5, 29, 17, 1)[2:])},                                  // registeredID
+	}
+	kindNames := []string{"other", "email", "dns", "dir", "uri", "ip", "rid"}
+	pop := func(m int) (c int) {
+		for ; m != 0; m &= m - 1 {
+			c++
+		}
+		return
+	}
+	for mask := 1; mask < 128; mask++ {
+		if lib.Tier() == "quick" && pop(mask) > 2 && pop(mask) < 7 {
+			continue
+		}
+		for mode := 0; mode < 4; mode++ {
+			mask, mode := mask, mode
+			var names []string
+			var content [][]byte
+			for k := 0; k < 7; k++ {
+				if mask&(1<<uint(k)) != 0 {
+					names = append(names, kindNames[k])
+					content = append(content, gn[k][0])
+					if (mask+mode+k)%2 == 0 {
+						content = append(content, gn[k][1])
+					}
+				}
+			}
+			empty, critical := mode == 0 || mode == 3, mode == 0 || mode == 2
+			name := fmt.Sprintf("sanset-hand-%s-subject:%v-critical:%v", strings.Join(names, "+"), !empty, critical)
+			add(name, func(t *tmpl) {
+				if empty {
+					t.cn, t.org = "", nil
+				}
+				t.extra = []ext{{[]int{2, 5, 29, 17}, critical, derTLV(0x30, content...)}}
+			})
+		}
+	}
 }
 
 func mergeTmpl(t, f *tmpl) {
@@ -583,13 +701,52 @@ func mergeTmpl(t, f *tmpl) {
 
 func (rn *runner) conformance() {
 	for _, t := range rn.templates() {
+		sc := rn.conformOne(t)
+		// The criticality dimension: both encoders fix the critical flag of every extension they build
+		// (keyUsage / basicConstraints always critical, the others never, subjectAltName by the subject),
+		// so the parser's handled / unhandled decision was only ever seen at one flag value per
+		// extension.  Each extension of the certificate crypto/x509 issued for a feature template is
+		// issued again with the flag flipped (ExtraExtensions replace the encoder's own extension of
+		// the same id) and compared in the same way.
+		if sc == nil || strings.HasPrefix(t.name, "combo") || strings.HasPrefix(t.name, "sanset") || strings.HasPrefix(t.name, "key-") ||
+			strings.HasPrefix(t.name, "validity-") || strings.HasPrefix(t.name, "serial-") || strings.HasPrefix(t.name, "name-") {
+			continue
+		}
+		for _, e := range sc.Extensions {
+			if seenFlip := rn.flipped[e.Id.String()+hx(e.Value)]; seenFlip && lib.Tier() == "quick" {
+				continue // the same extension value (e.g. the default keyUsage) is flipped once in the quick tier
+			}
+			if rn.flipped == nil {
+				rn.flipped = map[string]bool{}
+			}
+			rn.flipped[e.Id.String()+hx(e.Value)] = true
+			tt := *t
+			tt.name = fmt.Sprintf("%s/critflip-%s-to-%v", t.name, e.Id.String(), !e.Critical)
+			tt.stdOnly = true
+			tt.extra = nil
+			for _, x := range t.extra {
+				if oidStr(x.oid) != e.Id.String() {
+					tt.extra = append(tt.extra, x)
+				}
+			}
+			tt.extra = append(tt.extra, ext{append([]int{}, e.Id...), !e.Critical, e.Value})
+			rn.conformOne(&tt)
+		}
+	}
+}
+
+// conformOne issues the template with both encoders and compares the parsers on each certificate;
+// it returns crypto/x509's reading of the certificate crypto/x509 issued (nil if none).
+func (rn *runner) conformOne(t *tmpl) (stdIssued *stdx509.Certificate) {
+	{
 		key := signerFor(t.key)
 		type issued struct {
 			enc string
 			der []byte
 		}
 		var ds []issued
-		if der, err := x509.CreateCertificate(rand.Reader, t.forkTemplate(), t.forkTemplate(), key.Public(), key); err == nil {
+		if t.stdOnly {
+		} else if der, err := x509.CreateCertificate(rand.Reader, t.forkTemplate(), t.forkTemplate(), key.Public(), key); err == nil {
 			ds = append(ds, issued{"fork", der})
 		} else {
 			ds = append(ds, issued{"fork-encoder-error:" + err.Error(), nil})
@@ -601,6 +758,9 @@ func (rn *runner) conformance() {
 		}
 		for _, d := range ds {
 			tags := []string{"stream:conformance", "tmpl:" + strings.SplitN(t.name, "-", 2)[0], "key:" + t.key}
+			if t.stdOnly {
+				tags = append(tags, "conformance-class:critical-flag-flipped")
+			}
 			if d.der == nil {
 				// a template one of the encoders refuses is not a well-formed certificate: recorded, not judged
 				rn.w.Add(lib.Case{Coq: "(CConf true true)", Input: map[string]interface{}{"template": t.name, "encoder": d.enc}, Impl: "not issued", PropOK: true,
@@ -609,6 +769,9 @@ func (rn *runner) conformance() {
 			}
 			fr := guard(func() res { return parsers[fnCert].f(d.der) })
 			sc, serr := stdx509.ParseCertificate(d.der)
+			if d.enc == "std" && serr == nil {
+				stdIssued = sc
+			}
 			in := describe("template "+t.name+" issued by "+d.enc, nil, d.der, false)
 			switch {
 			case fr.panicked != "" || fr.hung:
@@ -621,8 +784,29 @@ func (rn *runner) conformance() {
 				noerr := fr.err == nil && fr.has
 				var dd []string
 				if fr.has {
-					dd = diff(projFork(fr.certs[0]), projStd(sc))
-					if t.extra != nil && oidStr(t.extra[0].oid) == "1.3.6.1.4.1.11129.2.4.2" && len(fr.certs[0].SCTList.SCTList) != 1 {
+					ps := projStd(sc)
+					// the one extension the fork interprets and crypto/x509 does not (the embedded SCT list;
+					// the fork fills Certificate.SCTList, checked below): when it is marked critical,
+					// crypto/x509 lists it as unhandled and the fork, rightly, does not
+					var uh []string
+					for _, o := range ps["unhandledCritical"].([]string) {
+						if o != sctListOID {
+							uh = append(uh, o)
+						}
+					}
+					if uh == nil {
+						uh = []string{}
+					}
+					ps["unhandledCritical"] = uh
+					dd = diff(projFork(fr.certs[0]), ps)
+					// the validity bounds against the template itself (whole seconds; independent of both parsers)
+					if got, want := fr.certs[0].NotBefore, t.notBefore.Truncate(time.Second); !got.Equal(want) {
+						dd = append(dd, fmt.Sprintf("notBefore: fork=%s template=%s", got.UTC().Format(time.RFC3339), want.UTC().Format(time.RFC3339)))
+					}
+					if got, want := fr.certs[0].NotAfter, t.notAfter.Truncate(time.Second); !got.Equal(want) {
+						dd = append(dd, fmt.Sprintf("notAfter: fork=%s template=%s", got.UTC().Format(time.RFC3339), want.UTC().Format(time.RFC3339)))
+					}
+					if len(t.extra) > 0 && oidStr(t.extra[0].oid) == sctListOID && len(fr.certs[0].SCTList.SCTList) != 1 {
 						dd = append(dd, fmt.Sprintf("SCTList: %d entries, expected 1", len(fr.certs[0].SCTList.SCTList)))
 					}
 				}
@@ -646,6 +830,7 @@ func (rn *runner) conformance() {
 			}
 		}
 	}
+	return
 }
 
 var p224Key crypto.Signer
